@@ -14,6 +14,8 @@ package simrt
 import (
 	"fmt"
 	"runtime"
+	"strconv"
+	"strings"
 	"sync/atomic"
 	"time"
 	"unsafe"
@@ -42,7 +44,7 @@ type Config struct {
 	Strategy  Strategy
 	Trace     bool
 	CheckGID  bool
-	ClockJump int // if >0: 1-in-ClockJump chance per step of advancing the clock while tasks are enabled
+	ClockJump int    // if >0: 1-in-ClockJump chance per step of advancing the clock while tasks are enabled
 	Wait      func() // synctest.Wait, injected by the harness
 }
 
@@ -64,6 +66,7 @@ type Task struct {
 	waitCond unsafe.Pointer
 	condSeq  uint64
 	waitOnce unsafe.Pointer
+	inOnce   [8]unsafe.Pointer
 	waitStep int
 
 	PanicVal   any
@@ -119,26 +122,21 @@ type Sim struct {
 	last  *Task
 	steps int
 
-	condSeq  uint64
-	onceBusy []onceEntry
-	digest   uint64
-	trace    []TraceStep
-	notes    []string
-	strays   atomic.Int32
-	strayMsg atomic.Pointer[string]
-	switches int
-	jumps    int
-	quiesces int
-	start    time.Time
-	pctChg   []int
-	lowPrio  int
-	smaps    []smapEntry
-	smapSeq  uint64
-}
-
-type onceEntry struct {
-	o unsafe.Pointer
-	t *Task
+	condSeq    uint64
+	digest     uint64
+	trace      []TraceStep
+	notes      []string
+	strays     atomic.Int32
+	finalizers atomic.Int32
+	strayMsg   atomic.Pointer[string]
+	switches   int
+	jumps      int
+	quiesces   int
+	start      time.Time
+	pctChg     []int
+	lowPrio    int
+	smaps      []smapEntry
+	smapSeq    uint64
 }
 
 var active atomic.Pointer[Sim]
@@ -192,10 +190,16 @@ func enter() (*Sim, *Task) {
 
 //go:norace
 func (s *Sim) stray() {
+	buf := make([]byte, 4096)
+	n := runtime.Stack(buf, false)
+	msg := string(buf[:n])
+	if strings.Contains(msg, "runtime.runFinalizers") {
+		// finalizers (adt.Pool.Make) run on the runtime's own goroutine,
+		// outside the bubble: they pass through unsimulated.
+		s.finalizers.Add(1)
+		return
+	}
 	if s.strays.Add(1) == 1 {
-		buf := make([]byte, 4096)
-		n := runtime.Stack(buf, false)
-		msg := string(buf[:n])
 		s.strayMsg.Store(&msg)
 	}
 }
@@ -301,7 +305,7 @@ func (s *Sim) newTask(parent *Task, name string, lib bool) *Task {
 	if parent == nil {
 		c.ID = "0"
 	} else {
-		c.ID = fmt.Sprintf("%s.%d", parent.ID, parent.nchild)
+		c.ID = parent.ID + "." + strconv.Itoa(parent.nchild)
 		parent.nchild++
 	}
 	c.site = "start"
@@ -317,9 +321,7 @@ func (s *Sim) newTask(parent *Task, name string, lib bool) *Task {
 //go:norace
 func (c *Task) main(s *Sim, fn func()) {
 	raceDisable()
-	if s.cfg.CheckGID {
-		c.gid = curGID()
-	}
+	c.gid = curGID()
 	<-c.gate
 	raceEnable()
 	defer c.finish()
@@ -401,7 +403,7 @@ func Note(msg string) {
 	if s != nil {
 		s.mix(msg)
 		if s.cfg.Trace {
-			s.notes = append(s.notes, fmt.Sprintf("@%d %s", s.steps, msg))
+			s.notes = append(s.notes, "@"+strconv.Itoa(s.steps)+" "+msg)
 			s.trace = append(s.trace, TraceStep{Step: s.steps, Task: "-", Site: msg})
 		}
 	}
@@ -626,6 +628,8 @@ func (s *Sim) Run(root func()) *Result {
 		t.gate <- struct{}{}
 	}
 	s.cur.Store(nil)
+	active.Store(nil)
+	raceEnable()
 	res.Steps = s.steps
 	res.Digest = s.digest
 	res.Trace = s.trace
@@ -658,8 +662,6 @@ func (s *Sim) Run(root func()) *Result {
 		}
 		res.Tasks = append(res.Tasks, ti)
 	}
-	active.Store(nil)
-	raceEnable()
 	return res
 }
 
